@@ -1,0 +1,9 @@
+//go:build verif
+
+// Contracts for the deductive verifier in /verif (comment-only; compiled only with -tags verif).
+package fsscanner
+
+// Glue over k8s.io/cli-runtime's resource.Builder (A-conv): not verified, no property of its result is assumed.
+//@ func GetResourceInfosFromDirPath
+//@   trusted
+//@   modifies *
